@@ -12,11 +12,11 @@ from props.simlib import make_network, make_battery, make_sim, Scripted, Snap, s
 
 ASSUMPTIONS = simlib.SIM_ASSUMPTIONS + [
     "sessions: 0 <= arrival < departure <= H; sessions sharing a station do not overlap (back-to-back allowed)",
-    "huge ideal battery and huge request, so that 'rate > 0' is equivalent to 'connected and pilot > 0'",
+    "huge ideal battery, so that 'rate > 0' is equivalent to 'connected and pilot > 0'; the request is huge (never met) or, in req=sym jobs, symbolic in (0,2] kWh (met after a few periods)",
 ]
 
 
-def h_events(cx, stations, station_of, H, sched, mr, constraint, n_recompute):
+def h_events(cx, stations, station_of, H, sched, mr, constraint, n_recompute, req=None):
     env.install(cx)
     A = acn()
     snap = Snap()
@@ -32,7 +32,10 @@ def h_events(cx, stations, station_of, H, sched, mr, constraint, n_recompute):
         # the user's *estimate* of the departure is independent of the real departure
         est = cx.int("est%d" % i, 1, H + 1)
         cx.assume(gt(est, a))
-        evs.append(A.EV(a, d, 50000, stations[station_of[i]][0], "sess%d" % i, b, estimated_departure=est))
+        # req == "sym": the request is a symbolic energy a few periods of charging can meet, so sessions may be fully
+        # charged (dropped from the scheduler's view) before they leave; the battery stays huge (rate == pilot)
+        e_req = 50000 if req is None else cx.real("req%d" % i, lo=0, lo_open=True, hi=2)
+        evs.append(A.EV(a, d, e_req, stations[station_of[i]][0], "sess%d" % i, b, estimated_departure=est))
     rts = [cx.int("r%d" % k, 0, H) for k in range(n_recompute)]
     calls = []
     if sched == "scripted":
@@ -106,7 +109,7 @@ def h_events(cx, stations, station_of, H, sched, mr, constraint, n_recompute):
                 cx.check("rate_is_pilot_when_connected", eq(rate, sim.pilot_signals[si, t]))
                 if (sched == "scripted" and mr == 1) or sched == "uncontrolled":
                     cx.check("rate_positive_when_connected", gt(rate, 0))
-    if sched in ("uncontrolled", "fcfs"):
+    if sched in ("uncontrolled", "fcfs") and req is None:
         for r in snap.rows:
             t = r["t"]
             for si, s in enumerate(stations):
@@ -131,6 +134,9 @@ def jobs(tier):
             (S1, (0, 0), 3, "uncontrolled", 1, False, 0),
             (S2, (0, 1), 3, "fcfs", 1, True, 0),
             (S2, (0, 0, 1), 3, "scripted", 1, False, 0),
+            (S1, (0, 0), 3, "scripted", 1, False, 0, "sym"),
+            (S2, (0, 1), 3, "scripted", None, True, 0, "sym"),
+            (S2, (0, 0), 3, "uncontrolled", 1, False, 0, "sym"),
         ]
     else:
         cfgs = []
@@ -140,11 +146,15 @@ def jobs(tier):
                     if sched in ("uncontrolled", "fcfs", "empty") and nrec:
                         continue
                     cfgs.append((st, so, 4, sched, mr, st is S2, nrec))
-    for st, so, H, sched, mr, cons, nrec in cfgs:
-        name = "events[n=%d,sess=%s,H=%d,%s,mr=%s,cons=%s,rec=%d]" % (len(st), "".join(map(str, so)), H, sched, mr, int(cons), nrec)
-        js.append(Job(name, h_events, dict(stations=st, station_of=so, H=H, sched=sched, mr=mr, constraint=cons, n_recompute=nrec),
+                    if nrec == 0 and len(set(so)) < 3 and sched != "empty":
+                        cfgs.append((st, so, 3, sched, mr, st is S2, nrec, "sym"))
+    for cfg in cfgs:
+        st, so, H, sched, mr, cons, nrec = cfg[:7]
+        req = cfg[7] if len(cfg) > 7 else None
+        name = "events[n=%d,sess=%s,H=%d,%s,mr=%s,cons=%s,rec=%d%s]" % (len(st), "".join(map(str, so)), H, sched, mr, int(cons), nrec, ",req=sym" if req else "")
+        js.append(Job(name, h_events, dict(stations=st, station_of=so, H=H, sched=sched, mr=mr, constraint=cons, n_recompute=nrec, req=req),
                       functions=simlib.SIM_FUNCS, expect_tags=("terminated",), max_paths=60000, timeout=3000,
-                      bounds=dict(stations=len(st), sessions=len(so), horizon=H, recompute_events=nrec, scheduler=sched, max_recompute=mr,
+                      bounds=dict(stations=len(st), sessions=len(so), horizon=H, recompute_events=nrec, scheduler=sched, max_recompute=mr, requested_energy_kWh=("(0,2] symbolic: sessions may be fully charged before they leave" if req else 50000),
                                   note="event times symbolic integers in [0,H]; every interleaving inside the bound is one path"),
                       cost=(10 ** len(so)) * (H ** 2) * (1 + nrec * H)))
     return js
